@@ -51,7 +51,11 @@ class Probe:
         self.pa = pa
         self.C = pa.Continuum
         self.A = pa.Alignment
-        self.orig = (self.C.get_first_window, self.A.take_until_limit, self.C.get_fast_alignment, self.C.get_best_alignment)
+        # get_first_window / take_until_limit are the library's own helpers of the windowed algorithm: if a refactoring removes or
+        # renames them the probe degrades to a black box (no iteration records; the results are judged all the same)
+        self.orig = (getattr(self.C, "get_first_window", None), getattr(self.A, "take_until_limit", None),
+                     self.C.get_fast_alignment, self.C.get_best_alignment)
+        self.blackbox = self.orig[0] is None or self.orig[1] is None
         self.iters = None
         self.index = None
         self.limit = None
@@ -98,13 +102,16 @@ class Probe:
                 probe.jobs.append([0 if math.isinf(self_c.best_window_size) else int(self_c.best_window_size), "best"])
             return o_best(self_c, dissimilarity)
 
-        self.C.get_first_window = get_first_window
-        self.A.take_until_limit = take_until_limit
+        if not self.blackbox:
+            self.C.get_first_window = get_first_window
+            self.A.take_until_limit = take_until_limit
         self.C.get_fast_alignment = get_fast_alignment
         self.C.get_best_alignment = get_best_alignment
 
     def uninstall(self):
-        self.C.get_first_window, self.A.take_until_limit, self.C.get_fast_alignment, self.C.get_best_alignment = self.orig
+        if not self.blackbox:
+            self.C.get_first_window, self.A.take_until_limit = self.orig[0], self.orig[1]
+        self.C.get_fast_alignment, self.C.get_best_alignment = self.orig[2], self.orig[3]
 
     def run(self, c, d, w):
         """Run get_fast_alignment under the iteration watchdog; returns (alignment or None, run record)."""
@@ -112,7 +119,7 @@ class Probe:
         self.index = {p: i for i, p in enumerate(pairs)}
         self.end = [u.segment.end for _, u in pairs]
         self.iters = []
-        self.limit = len(pairs) + 1
+        self.limit = 3 * len(pairs) + 10       # far beyond what any progress-making loop needs: more iterations = stalled
         al, finished, why = None, 0, ""
         try:
             al = align.run_with_alarm(lambda: c.get_fast_alignment(d, w), 30)
@@ -129,7 +136,7 @@ class Probe:
                     if u is not None:
                         result.append(self.index.get((a, u), -1))
         run = {"n": len(c.annotators), "w": int(w), "total": len(pairs), "iters": self.iters, "finished": finished,
-               "result": result, "jobs": [], "est": [], "_why": why}
+               "result": result, "jobs": [], "est": [], "bb": 1 if self.blackbox else 0, "_why": why}
         self.iters = None
         return al, run
 
@@ -141,6 +148,7 @@ def judge_runs(runs, label="TraceFast"):
         r["iters"] = [{k: v for k, v in it.items() if k != "xl"} for it in r["iters"]]
     for r in clean:
         r.setdefault("est", [])
+        r.setdefault("bb", 0)
     path.write_text(json.dumps({"runs": clean, "log2": [int(round(1000 * math.log2(k))) for k in range(1, 4001)]}))
     res = tlc.run("TraceFast", "SPECIFICATION Spec\nCONSTRAINT Verdicts\n", label=label, env={"TRACE_FILE": str(path)},
                   workers=8, timeout=900, coverage=False)
@@ -313,6 +321,7 @@ def gamma_jobs(rep, pa, probe, rng, count):
     return runs
 
 
+FAST_BEYOND = {"ObsRemaining", "WindowSubset", "HeadSize", "IterShrinks", "ChosenInWindow", "ChosenOnce", "IterBound", "ObsAllRemoved"}
 FAST_CLAUSES = {"ObsPartition", "ObsSlots", "ObsNoForeign", "ObsHasRealUnit", "ObsUnitary", "ObsTotal", "ObsRecompute",
                 "ObsFastGE", "ObsFastEq"}
 
@@ -341,7 +350,19 @@ def run(tier, rep):
         rep.add_tlc(res, label=f"TraceFast batch {i // B}")
         for k, names in verdicts.items():
             r = runs[i + k]
-            key = "fast.stall" if (r["_why"] in ("stall", "timeout") or "IterShrinks" in names) else "fast." + "+".join(sorted(names))
+            # HOW the windowed algorithm iterates (what it keeps in the window, what it removes per iteration) is the design
+            # FastAlign.tla models; C10's statement is about termination and the result.  Departures from the modelled
+            # iteration scheme alone are NOTEs; a run that did not return, or returned something else than a partition, an alarm
+            mech = set(names) & FAST_BEYOND
+            if mech:
+                rep.beyond("fast." + "+".join(sorted(mech)), {"meta": metas[i + k], "iterations": r["iters"][:4]})
+            names = set(names) - FAST_BEYOND
+            if r["_why"] in ("stall", "timeout"):
+                key = "fast.stall"
+            elif names:
+                key = "fast." + "+".join(sorted(names))
+            else:
+                continue
             rep.violation(key, {"clauses": sorted(names), "why": r["_why"], "meta": metas[i + k],
                                 "iterations": r["iters"][:6], "result": r["result"]})
     rep.traces += len(runs)
